@@ -39,6 +39,27 @@ Definition enabled_drs_closed (t : tables) (l : list Z) : bool := forallb (dr_de
 Definition cflist_closed (t : tables) : bool :=
   if t_extra t then uplink_channel_closed t (t_cfmin t) (t_cfmax t) else true.
 
+(* enabled uplink data-rates [l] handed out by a band whose uplink channels carry the DR
+   ranges [chans] = (frequency, MinDR, MaxDR), e.g. after a history of AddChannel calls:
+   every returned data-rate lies in the range of some channel, every data-rate of every
+   channel's range is returned, the list is strictly ascending, and - when every channel
+   range consists of defined uplink data-rates - every returned data-rate is a defined
+   uplink data-rate (a range [0..5] next to a range [7..7] must not hand out an undefined 6) *)
+Definition in_chan_range (d : Z) (c : chan3) : bool := (snd (fst c) <=? d) && (d <=? snd c).
+Fixpoint strictly_ascending (l : list Z) : bool :=
+  match l with
+  | a :: ((b :: _) as l') => (a <? b) && strictly_ascending l'
+  | _ => true
+  end.
+Definition enabled_drs_cover (chans : list chan3) (l : list Z) : bool :=
+  forallb (fun d => existsb (in_chan_range d) chans) l
+  && forallb (fun c => range_all (fun d => existsb (Z.eqb d) l) (snd (fst c)) (snd c)) chans
+  && strictly_ascending l.
+Definition enabled_drs_post_ok (t : tables) (chans : list chan3) (l : list Z) : bool :=
+  enabled_drs_cover chans l
+  && (if forallb (fun c => uplink_channel_closed t (snd (fst c)) (snd c)) chans
+      then enabled_drs_closed t l else true).
+
 (* ---- index <-> parameters ---------------------------------------------------- *)
 (* dr is defined with parameters d; o_up / o_down = index found for d's parameters
    in the uplink / downlink direction *)
@@ -51,6 +72,28 @@ Definition size_wf (s : Z * Z) : bool :=
   (fst s =? snd s + 8) && (0 <=? snd s) && (snd s <=? 242).
 Definition size_zero (s : Z * Z) : bool := (fst s =? 0) && (snd s =? 0).
 Definition size_le (a b : Z * Z) : bool := (fst a <=? fst b) && (snd a <=? snd b).
+
+(* Every (version, revision) combination must resolve: a data-rate that a region lists since
+   its first release has a maximum payload size under EVERY protocol-version string and EVERY
+   regional-parameters revision string (known keys resolve to their table, anything else to
+   the "latest" entry of that level).  Only data-rates that the Regional Parameters added to a
+   region later may be answered with an error under an older version / revision:
+   the LR-FHSS data-rates (RP002-1.0.2), CN470 DR6 / DR7 (RP002-1.0.1) and AU915 DR5 / DR6
+   (LoRaWAN 1.0.2 rev B; before, AU915 had DR0..4). *)
+Definition late_data_rate (reg : region) (d : data_rate) (dr : Z) : bool :=
+  String.eqb (dr_mod d) "LR_FHSS"
+  || match reg with
+     | RCN470 => (dr =? 6) || (dr =? 7)
+     | RAU915 => (dr =? 5) || (dr =? 6)
+     | _ => false
+     end.
+Definition must_have_size (reg : region) (drs : zmap data_rate) (dr : Z) : bool :=
+  match zfind dr drs with
+  | Some d => negb (late_data_rate reg d dr)
+  | None => false
+  end.
+Definition every_revision_ok (reg : region) (drs : zmap data_rate) (dr : Z) (o : outcome (Z * Z)) : bool :=
+  if must_have_size reg drs dr then is_ok o else true.
 
 Definition is_lora (d : data_rate) : bool := String.eqb (dr_mod d) "LORA".
 
